@@ -156,6 +156,7 @@ def run(prog, ctx):
         cf = cfg_of(fi)
         # roles (not names): OB the local bound to self.old_B[K]; a copy site is  b[p] = OB[DM[p]]
         old_b_defs = {}
+        list_roles = set()
         for nm, bs in tmf.env.bindings.items():
             for b in bs:
                 if b.kind == "assign" and b.value is not None:
@@ -176,6 +177,8 @@ def run(prog, ctx):
                 mem = [g for g in guards if g[0] == "cmp" and g[1] == "In" and g[2][0] == "s" and g[2][2] == p and g[2][1][0] == "n" and g[3][0] == "n"]
                 in_old = bool(mem)
                 PL, OPL = (mem[0][2][1][1], mem[0][3][1]) if mem else (None, None)
+                if PL is not None:
+                    list_roles.add((PL, OPL, OBK))
                 DM = v[2][1] if v[2][0] == "s" and v[2][2] == p and v[2][1][0] == "n" else None
                 dm = ("s", DM, p) if DM is not None else None
                 matched = dm is not None and (any(g[0] == "cmp" and g[1] == "NotEq" and dm in (g[2], g[3]) and ("c", "-1") in (g[2], g[3]) for g in guards) or
@@ -217,6 +220,82 @@ def run(prog, ctx):
                     ctx.check(not problems, "C17.D2", R.key_of(fi, "old-domains-on-old-mesh"), fi.loc(oldd[1].stmt) if oldd else fi.loc(n.ast),
                               "old support domains and old points come from the stored mesh of the same key as the copied right-hand side",
                               "reuse of right-hand-side entries: " + "; ".join(problems))
+        # the old right-hand side is indexed like the point list of the grid it was stored for: where the current point list is built from
+        # coordinates handed in by the caller (they contain the boundary points), the old point list has to be built in exactly the same
+        # way from the old mesh, branch by branch (boundary flag).  calculate_B builds inner-only coordinates itself: not concerned.
+        if list_roles:
+            tdeep2 = Terms(fi.node)
+            tshal = Terms(fi.node, max_depth=0)
+            lists = {}
+            for nm, bs in tshal.env.bindings.items():
+                entries = []
+                for b in bs:
+                    if b.kind != "assign" or b.value is None:
+                        continue
+                    bn = cf.node_of(b.stmt)
+                    if bn is None:
+                        continue
+                    facts = tuple(sorted((g for (g, gn) in R.dominating_guards(fi, bn, tshal) if any(isinstance(x, tuple) and len(x) == 3 and x[0] == "a" and x[2] == "boundary" for x in subterms(g))), key=repr))
+                    entries.append((facts, tdeep2.term(b.value)))
+                lists[nm] = entries
+            for (PLn, OPLn, OBK) in sorted(list_roles, key=repr):
+                old_mesh = ("s", ("a", ("n", fi.self_name), "old_grid_coord"), OBK)
+
+                def listing(t):
+                    """('all' | 'inner', mesh term) for the recognised ways of listing the points of a mesh, else None"""
+                    if t[0] == "call" and len(t[2]) == 1:
+                        arg = t[2][0]
+                        if arg[0] == "comp" and len(arg[3]) == 1 and not arg[3][0][2] and arg[2][0] == "s" and arg[2][1] == ("bv", "$0") \
+                                and arg[2][2] == ("slice", ("c", "1"), ("c", "-1"), ("c", "None")):
+                            return ("inner", arg[3][0][1])
+                        if arg[0] in ("n", "s"):
+                            return ("all", arg)
+                    if t[0] == "comp" and t[2] == ("bv", "$0") and len(t[3]) == 1 and t[3][0][1][0] == "call" and len(t[3][0][1][2]) == 1:
+                        conds = {y for x in t[3][0][2] for y in (x[2] if x[0] == "bool" and x[1] == "and" else (x,))}
+                        if {("cmp", "NotIn", ("c", "0.0"), ("bv", "$0")), ("cmp", "NotIn", ("c", "1.0"), ("bv", "$0"))} <= conds:
+                            return ("inner", t[3][0][1][2][0])
+                    return None
+
+                def by_branch(entries):
+                    out = {}
+                    for (facts, t) in entries:
+                        k = listing(t)
+                        pols = set()
+                        for f_ in facts:
+                            neg = f_[0] == "not"
+                            pols.add(not neg)
+                        for pol in (pols or {True, False}):
+                            out.setdefault(pol, set()).add(k)
+                    return out
+                shallow = {}
+                for nm in (PLn, OPLn):
+                    es = []
+                    for b_ in tshal.env.bindings.get(nm, []):
+                        bn = cf.node_of(b_.stmt) if b_.kind == "assign" and b_.value is not None else None
+                        if bn is None:
+                            continue
+                        facts = tuple(sorted((g for (g, gn) in R.dominating_guards(fi, bn, tshal)
+                                              if any(isinstance(x, tuple) and len(x) == 3 and x[0] == "a" and x[2] == "boundary" for x in subterms(g))), key=repr))
+                        es.append((facts, R.resolve_locals(fi, tshal.term(b_.value), bn, tshal, depth=2)))
+                    shallow[nm] = es
+                pl, opl = by_branch(shallow[PLn]), by_branch(shallow[OPLn])
+                kinds = [k for v in list(pl.values()) + list(opl.values()) for k in v]
+                pl_meshes = {k[1] for v in pl.values() for k in v if k}
+                opl_meshes = {k[1] for v in opl.values() for k in v if k}
+                caller_mesh = len(pl_meshes) == 1 and list(pl_meshes)[0][0] == "n" and list(pl_meshes)[0][1] in fi.params
+                if None in kinds or not caller_mesh or opl_meshes != {old_mesh}:
+                    ctx.note("C17.D2", R.key_of(fi, "old-point-list-mirrors-point-list:%s" % OPLn), fi.loc(),
+                             "not decided here: the current point list is not listed from coordinates handed in by the caller in a recognised way "
+                             "(a mesh built locally from the level vector holds inner points only, both listings coincide)")
+                    continue
+                n2 += 1
+                bad = [pol for pol in (True, False) if {k[0] for k in pl.get(pol, set())} != {k[0] for k in opl.get(pol, set())}]
+                ctx.check(not bad, "C17.D2", R.key_of(fi, "old-point-list-mirrors-point-list:%s" % OPLn), fi.loc(),
+                          "with and without boundary points the old point list `%s` lists the old mesh the way `%s` lists the current one" % (OPLn, PLn),
+                          "for boundary=%s the current points (`%s`) are listed as %s but the points of the old grid (`%s`) as %s: the stored right-hand side is "
+                          "indexed like the point list of its own grid, so entries are copied from the position of another point"
+                          % (bad[0] if bad else "", PLn, sorted(k[0] for k in pl.get(bad[0], set())) if bad else "", OPLn,
+                             sorted(k[0] for k in opl.get(bad[0], set())) if bad else ""))
         # the domain match compares both ends of the support in every dimension
         for st in walk_local(fi.node):
             if isinstance(st, ast.Assign) and isinstance(st.targets[0], ast.Name) and isinstance(st.value, ast.ListComp) \
